@@ -58,7 +58,7 @@ PROPS["C20"] = {
     "units": [
         # noavx2: the amd64 build on a CPU without AVX2 takes its own branch of the start-up code
         # (edwards_vector_amd64.go:init), so the tables it leaves behind are enumerated separately
-        {"pkg": "curve", "configs": ["default", "noavx2", "purego", "force32bit", "386"],
+        {"pkg": "curve", "configs": ["default", "noavx2", "purego", "force32bit", "386", "386x64"],
          "tests": {
              "TestC20CurveConstants": LIST(),
              "TestC20Torsion": LIST(),
@@ -70,15 +70,15 @@ PROPS["C20"] = {
              "TestC20LookupAll": LIST(),
              "TestC20LookupRandom": T(3000, 100000),
          }},
-        {"pkg": "curve/scalar", "configs": ["default", "purego", "force32bit", "386"],
+        {"pkg": "curve/scalar", "configs": ["default", "purego", "force32bit", "386", "386x64"],
          "tests": {"TestC20ScalarConstants": LIST()}},
-        {"pkg": "internal/field", "configs": ["default", "purego", "force32bit", "386"],
+        {"pkg": "internal/field", "configs": ["default", "purego", "force32bit", "386", "386x64"],
          "tests": {"TestC20FieldConstants": LIST()}},
-        {"pkg": "internal/elligator", "configs": ["default", "purego", "force32bit", "386"],
+        {"pkg": "internal/elligator", "configs": ["default", "purego", "force32bit", "386", "386x64"],
          "tests": {"TestC20ElligatorConstants": LIST()}},
-        {"pkg": "internal/lattice", "configs": ["default", "purego", "force32bit", "386"],
+        {"pkg": "internal/lattice", "configs": ["default", "purego", "force32bit", "386", "386x64"],
          "tests": {"TestC20LatticeConstants": LIST()}},
-        {"pkg": "primitives/x25519", "configs": ["default", "purego", "force32bit", "386"],
+        {"pkg": "primitives/x25519", "configs": ["default", "purego", "force32bit", "386", "386x64"],
          "tests": {"TestC20X25519Basepoint": LIST()}},
     ],
 }
